@@ -162,12 +162,21 @@ def cat_case(draw, tier):
         elif all(t2[c][node2] == t1[c][node1] for c in "xyz"):
             t2["x"][node2] = t1["x"][node1] + 0.125
     far = draw(st.sampled_from([None, None, [32768, -16384, 8192], [-30720, 30720, 1024], [4096, 0, -32768]]))
+    almost = False
+    if translate and draw(st.integers(0, 3)) == 0:
+        # translation requested although the junctions already lie almost on top of each other: 2^-12 or 2^-13 of a unit
+        # apart along one axis (the second tree still has to be moved by exactly that much, and the junctions merged)
+        for c in "xyz":
+            t2[c][node2] = t1[c][node1]
+        t2[draw(st.sampled_from("xyz"))][node2] += draw(st.sampled_from([2.0 ** -12, -2.0 ** -12, 2.0 ** -13]))
+        almost = True
+        far = draw(st.sampled_from([None, [1024, -512, 256], [-1024, 768, 0]]))  # sums stay exact in float32 below 2^11
     if far:
         # both neurons sit far from the origin (stack coordinates): multiples of 1/8 stay exact in float32 up to 2^16
         for t in (t1, t2):
             for c, o in zip("xyz", far):
                 t[c] = [v + o for v in t[c]]
-    return {"t1": t1, "t2": t2, "node1": node1, "node2": node2, "translate": translate, "far": bool(far), "near": near,
+    return {"t1": t1, "t2": t2, "node1": node1, "node2": node2, "translate": translate, "far": bool(far), "near": near, "almost": almost,
             # the first tree may hold the shared extra column in a narrower dtype (whole numbers as int32) than the second
             "cols1": draw(st.sampled_from([["tag", "w"], ["tag"], ["tag", "w:int"], ["tag", "w", "eswc"]])),
             "inspect_first": draw(st.integers(0, 2)) == 0,
@@ -220,6 +229,8 @@ def run_cat(case, ctx):
             "cols1:" + "+".join(case["cols1"]), "cols2:" + "+".join(case["cols2"]))
     if case.get("far"):
         ctx.cls("far-from-the-origin")
+    if case.get("almost"):
+        ctx.cls("translation-by-a-tiny-offset")
     if case.get("near") and not merged:
         ctx.cls("junctions-a-fraction-of-a-unit-apart")
         if case.get("far"):
@@ -367,7 +378,8 @@ SUBCHECKS = [
                   "node2-not-root": 100, "cols2:tag": 50, "cols2:tag+w+q": 50, "far-from-the-origin": 200,
                   "junctions-a-fraction-of-a-unit-apart": 60, "near-miss-far-from-the-origin": 20,
                   "junction-mode-through-the-deprecated-keyword": 100, "shared-column-narrower-in-the-first-tree": 100,
-                  "trees-inspected-before-the-operation": 200, "extra-column-under-an-eswc-name": 100}),
+                  "trees-inspected-before-the-operation": 200, "extra-column-under-an-eswc-name": 100,
+                  "translation-by-a-tiny-offset": 60}),
     Sub("path", path_case, run_path, quick=600, thorough=3000, shards_quick=2,
         required={"path-len>=3": 50, "path-types-not-a-palindrome": 50}),
 ]
